@@ -72,7 +72,7 @@ CLAIMED = {
              design='4/C06',
              note='Trusted: hand model Position.v, the Python re-implementation of lexeme boundaries, xml.etree. The XPath construction (sibling counting) is decided by the DOM oracle only. Known finding: C06-string-literal-newline.'),
  'C15': dict(technique='Coq proof over an access-order model of the parser\'s process-global state (no global read before written except counter and start condition), translation invariance of position lookup, machine-checked wrap refutation; history-vs-fresh-process oracle',
-             text='For parse_XTA(part), parseProperty, parse_XTA(text) and parse_XML with any number of blocks, the only globals a call reads before writing are the running position counter and the scanner start condition; '
+             text='For parse_XTA(part), parseProperty, parse_XTA(text) and parse_XML with any number of blocks, the only globals a call reads before writing are the running position counter and the scanner start condition; C15_start_condition_reset: with the transition table regenerated from lexer.l, every sequence of parses (also of texts ending inside a comment) leaves the scanner in INITIAL; '
                   'path/line/column of every offset are independent of the counter\'s value (from the C06 theorem); below 2^32 the index accepts every entry, at the wrap add() throws (C15_wrap_refuted, known finding). '
                   'Tied by grammar checks on the regenerated grammar (types / rootTransId written before read) and by random histories of 2-8 calls - including calls that end in exceptions, unterminated comments and aborted array declarations, '
                   'with the counter seeded around 2^31 and 2^32 - each compared with the same call in a fresh process.',
@@ -104,7 +104,7 @@ CLAIMED = {
  'C01': dict(technique='Coq soundness theorem for a stack-discipline certificate over the LR(0) item automaton (any token stream, any error recovery), certificate re-checked by vm_compute on the automaton regenerated from parser.y; callback traces against the effect table; ASan/UBSan stream over all entry points and back ends',
              text='C01_fragments_never_underflow, C01_type_fragments_never_underflow, C01_frames_never_underflow: no run of the LR machine of the regenerated automaton (shift any terminal, reduce by any listed rule whatever the lookahead, recover from any state without default reduction to the first state shifting error) '
                   'executes a grammar action that reads more entries of the expression / type / frame stack than the parse has pushed, with counting non-terminals (ArgList, FieldInitList, ...) handled by linear forms over semantic values; '
-                  'tied by regenerating automaton, actions and certificate on every run, by comparing the three stack heights around every callback of thousands of generated and mutated inputs with the effect table, and by a sanitizer build over parse_XML_buffer / parse_XTA / every xta_part_t / parseProperty x DocumentBuilder / PrettyPrinter / TigaPropertyBuilder x both syntaxes.',
+                  'tied by regenerating automaton, actions and certificate on every run, by replaying bison\'s skeleton (with error recovery) on the regenerated tables and requiring the callback sequence of the real parser, by comparing the three stack heights around every callback of thousands of generated and mutated inputs with the effect table, and by a sanitizer build over parse_XML_buffer / parse_XTA / every xta_part_t / parseProperty x DocumentBuilder / PrettyPrinter / TigaPropertyBuilder x both syntaxes.',
              design='4/C01',
              note='Level is proof for the stack discipline only (partial): null attributes and current-object pointers of the XML reader and builder, the statement-block / field / label stacks, libxml2, flex, memory safety of the C++ runtime and running time are observed by the sanitizer stream, not proved.'),
  'C16': dict(technique='Coq: the LR stack-discipline theorem instantiated for frames, expression and type fragments (no block can reach below what it pushed), builder-model theorems on failed edges and labels without an edge, append-only declaration model; relational fault-injection oracle on generated accepted models with symbol bindings dumped',
